@@ -349,13 +349,18 @@ def m_callbacks(run):
             raised_before = any(r['ev'] == 'on_queued' and r['sub'] != nm and (r['sub'] in run.raising_queued.get(lb, ()))
                                 and i < (q[0] if q else 10 ** 9) for i, r in evs) or \
                 (not q and any(r['sub'] in run.raising_queued.get(lb, ()) for _, r in evs if r['ev'] == 'on_queued'))
-            if started and len(q) != 1 and not raised_before:
+            has = getattr(run, 'sub_has', {}).get(lb, {}).get(nm)      # a duck-typed subscriber: only these methods
+            if has is not None and 'queued' not in has:
+                q = [q[0]] if False else q
+                if q:
+                    f.append(f'{lb}/{nm}: on_queued ran although the subscriber has no such method')
+            elif started and len(q) != 1 and not raised_before:
                 f.append(f'{lb}/{nm}: on_queued ran {len(q)} times')
             if not started and q:
                 f.append(f'{lb}/{nm}: on_queued ran although the transfer never started')
             if q and s3_idx and min(s3_idx) < q[0]:
                 f.append(f'{lb}/{nm}: an S3 request of the transfer preceded on_queued')
-            if lb in run.results and len(d) != 1:
+            if lb in run.results and len(d) != 1 and not (has is not None and 'done' not in has and not d):
                 f.append(f'{lb}/{nm}: on_done ran {len(d)} times')
             if d:
                 if t not in ev_set or ev_set[t] > d[0]:
